@@ -236,5 +236,13 @@ func (r *Run) FreshSync(prefix string) (string, error) {
 	if err := svc.ReconcileIngress(ctx, changed); err != nil {
 		return "", fmt.Errorf("oracle reconcile: %w", err)
 	}
+	if r.freshTwice {
+		// a second full sync of the same state: what a controller that has been running for a while writes
+		// (state that one sync leaves for the next, the cross-namespace permissions among it)
+		again := &convtypes.ChangedObjects{Links: convtypes.TrackingLinks{}, NeedFullSync: true, GlobalConfigMapDataCur: changed.GlobalConfigMapDataNew, TCPConfigMapDataCur: changed.TCPConfigMapDataNew}
+		if err := svc.ReconcileIngress(ctx, again); err != nil {
+			return "", fmt.Errorf("oracle reconcile (second sync): %w", err)
+		}
+	}
 	return prefix, nil
 }
